@@ -219,6 +219,6 @@ shape("exit_llm_setup", "src/codemodder/llm.py", ["C20"], "ai_env_consistency_ch
 shape("exit_detect_sarif", "src/codemodder/sarifs.py", ["C20"], "sarif_detection_known", "bool", "true", ["detect_sarif_tools"],
       doc="detect_sarif_tools: read_text/json.loads unguarded, DuplicateToolError on a second file of one tool")
 
-shape("exit_semgrep_run", "src/codemodder/semgrep.py", ["C20"], "semgrep_targets_filtered", "bool", "true", ["_scannable", "run"],
+shape("exit_semgrep_run", "src/codemodder/semgrep.py", ["C20"], "semgrep_targets_filtered", "bool", "false", ["_scannable", "run"],
       doc="semgrep.run: a non-zero exit of `semgrep scan` is re-raised (CalledProcessError); true = targets semgrep would refuse "
           "(missing, no owner-read bit) are skipped first, false = every path is handed over")
